@@ -153,9 +153,9 @@ def writer_file(rnd, nptdms, tmp):
     for q in (p, p + "_index"):
         if os.path.exists(q):
             os.unlink(q)
-    mode = "w"
+    mode = rnd.choice(["w", "w", "w+", "x"])       # every mode string open() accepts for creating / appending
     version = rnd.choice([4712, 4713])
-    for _ in range(rnd.randint(1, 2)):
+    for _ in range(rnd.randint(1, 3)):
         with TdmsWriter(p, mode=mode, index_file=True, version=version) as w:
             for _ in range(rnd.randint(1, 3)):
                 objs = []
@@ -175,7 +175,7 @@ def writer_file(rnd, nptdms, tmp):
                         arr = (np.arange(n) * 3 + rnd.randint(0, 9)).astype(kind)
                     objs.append(ChannelObject("g", "c%d_%s" % (ci, kind), arr, {"k": ci}))
                 w.write_segment(objs)
-        mode = "a"
+        mode = rnd.choice(["a", "a", "a+"])
     return open(p, "rb").read(), open(p + "_index", "rb").read()
 
 
